@@ -30,6 +30,7 @@ type Cfg struct {
 	Buf            int      `json:"buf"`
 	FailSaves      []int    `json:"fail_saves,omitempty"`
 	Location       string   `json:"location,omitempty"`    // session option Location (time zone of SendingTime); "" = the default (UTC)
+	PartitionStore bool     `json:"partition_store,omitempty"` // the message store keeps messages per (Sender, Target) of the StorageID it is given
 	LogonCbNs      int64    `json:"logon_cb_ns,omitempty"` // acceptor (full rig): virtual time the application's logon callback takes
 	User           string   `json:"user,omitempty"`
 	Pass           string   `json:"pass,omitempty"`
@@ -229,6 +230,7 @@ func runDirect(cfg Cfg, steps []Step, hooks *Hooks, maxHB int, tr *Trace) {
 	r.store = NewStore(hooks.Inner)
 	r.store.Log = r.log
 	r.store.Delay = hooks.StoreDelay
+	r.store.Partition = cfg.PartitionStore
 	for _, k := range cfg.FailSaves {
 		r.store.FailSaves[k] = true
 	}
